@@ -22,3 +22,5 @@ def run(prog, rep):
     r_null.run_strings(prog, rep)
     r_io.run_dcpl(prog, rep)
     r_io.run_growable(prog, rep)
+    from ..rules import r_io as _rio2
+    _rio2.run_swapped(prog, rep)
